@@ -605,6 +605,34 @@ def acl_histories(r, thorough, types=("join", "publish", "read")):
 
 
 
+def two_list_histories(r, thorough):
+    """directed: the owner edits TWO of a channel's allow-lists in turn (the lists are independent: an update of one must
+    neither read nor write another), reads both back, then members publish: every member the read list — as the
+    acknowledged updates build it — permits receives each acknowledged broadcast, the others none."""
+    cases = []
+    for _ in range(60 if thorough else 12):
+        cfg = base_cfg(r, None)
+        cfg.update({"max_clients": 10, "max_subs": 10, "max_conns": 16, "max_channels": 100, "max_inflight": 10})
+        g = Gen(r, cfg)
+        ks = _login(g, USERS)
+        ch = "!c1@localhost"
+        owner = ks["alice"]
+        for u in USERS:
+            g.send(ks[u], frame("JOIN", [("id", g.rid()), ("channel", ch)]))
+        t1, t2 = r.choice([("read", "publish"), ("publish", "read"), ("read", "join"), ("join", "read")])
+        names = [u + "@localhost" for u in USERS]
+        steps = [(t1, "add", r.sample(names, 1)), (t2, "add", ["alice@localhost"] + r.sample(names[1:], 1)), (t1, "add", r.sample(names, 1)),
+                 (t2, r.choice(["add", "remove"]), r.sample(names[1:], 1)), (t1, r.choice(["add", "remove"]), r.sample(names, r.choice([1, 2])))]
+        for (ty, act, nids) in steps[:r.randint(3, 5)]:
+            g.send(owner, frame("SET_CHAN_ACL", [("id", g.rid()), ("channel", ch), ("type", ty), ("action", act), ("nids", nids)]))
+        for ty in (t1, t2):
+            g.send(owner, frame("GET_CHAN_ACL", [("id", g.rid()), ("channel", ch), ("type", ty)]))
+        for u in ("alice", "bob", "carol"):
+            g.send(ks[u], frame("BROADCAST", [("id", g.rid()), ("channel", ch), ("length", 4), ("qos", 1)], b"data"))
+        cases.append({"cfg": cfg, "ops": g.ops})
+    return cases
+
+
 def op_bytes(op):
     """the whole frames a send op completes (a split header counts in the op that carries its tail)"""
     if op.get("split") == "head":
@@ -687,8 +715,8 @@ def failed_event_histories(r, thorough):
     ACLs, ownership) — ends with the audit."""
     import srvmon
     cases = []
-    variants = ["member_leaves", "owner_kicks", "last_leaves_rejoin", "second_connection_leaves", "hangup_member"]
-    for i in range(100 if thorough else 20):
+    variants = ["member_leaves", "owner_kicks", "last_leaves_rejoin", "second_connection_leaves", "hangup_member", "join_announcement_fails"]
+    for i in range(120 if thorough else 24):
         v = variants[i % len(variants)]
         mod = r.choice([MOD_CONFIGS[3], MOD_CONFIGS[4], MOD_CONFIGS[5]])
         cfg = base_cfg(r, mod)
@@ -708,6 +736,24 @@ def failed_event_histories(r, thorough):
             g.send(ks["bob"], frame("GET_CHAN_CONFIG", [("id", g.rid()), ("channel", ch)]), [])
             g.send(ks["bob"], frame("GET_CHAN_ACL", [("id", g.rid()), ("channel", ch), ("type", "join")]), [])
             g.send(ks["carol"], frame("JOIN", [("id", g.rid()), ("channel", ch)]), [])
+        elif v == "join_announcement_fails":
+            # the announcement of a JOIN to an existing channel fails: the joiner is refused (and its connection closed);
+            # it comes back under the same name — it is a member of nothing, whatever the members publish
+            g.send(ks["bob"], frame("JOIN", [("id", g.rid()), ("channel", ch)]), [])
+            g.send(ks["carol"], frame("JOIN", [("id", g.rid()), ("channel", ch)]), fail)
+            del g.conns[ks["carol"]]
+            k2 = g.next_k
+            g.next_k += 1
+            g.ops.append({"t": "open", "k": k2})
+            g.send(k2, frame("CONNECT", [("version", 1), ("heartbeat_interval", 0)]), [])
+            g.send(k2, frame("IDENTIFY", [("username", "carol")]), [])
+            g.conns[k2] = {"phase": 2, "user": "carol"}
+            for pub in ("alice", "bob"):
+                g.send(ks[pub], frame("BROADCAST", [("id", g.rid()), ("channel", ch), ("length", 6), ("qos", r.choice([0, 1]))], b"secret"), [])
+            g.send(k2, frame("CHANNELS", [("id", g.rid()), ("page_size", 50)]), [])
+            g.ops[-1]["audit"] = "channels"
+            g.send(k2, frame("MEMBERS", [("id", g.rid()), ("channel", ch), ("page_size", 100)]), [])
+            g.ops[-1].update({"audit": "members", "channel": ch})
         else:
             g.send(ks["bob"], frame("JOIN", [("id", g.rid()), ("channel", ch)]), [])
             if r.random() < 0.5:
